@@ -54,6 +54,10 @@ let show_outcome = function
 let () = iter_lines (fun line ->
   match fields line with
   | ["match"; cfg; rules; a; meth; path] -> show_outcome (router_match (rmap cfg rules) (adapter a) (str path) (str meth))
+  | ["matchbo"; cfg; rules; a; meth; path; bo] ->
+      (* bo: idx|idx : the rules created with build_only=True *)
+      let l = lst '|' int_of_string bo in
+      show_outcome (router_match_bo (fun i -> List.mem (int_of_n i) l) (rmap cfg rules) (adapter a) (str path) (str meth))
   | ["matchrt"; cfg; rules; a; meth; path; rt] ->
       (* rt: idx=template|idx=template : Rule.redirect_to string templates by rule index *)
       let tbl = lst '|' (fun kv -> match sp '=' kv with [i; t] -> (int_of_string i, str t) | _ -> failwith "rt") rt in
